@@ -101,7 +101,7 @@ func RichGen(r *rand.Rand) *Gen {
 	return &Gen{R: r, Rich: true,
 		Keys:   []string{"k1", "k:2", "key with space", "k*", "k?x", "клю", "k\x01", "K1", "[k]"},
 		IDs:    []string{"a", "b", "a*", "a?", "id with space", "İd", "a\\b", "\"q\"", "a{b}", "0", "-1", "truck:1", "[x]"},
-		Fields: []string{"f", "g", "Speed", "speed", "a b", "ŧ", "F", "_", "x9", "name\"q"}}
+		Fields: []string{"f", "g", "Speed", "speed", "a b", "ŧ", "F", "_", "x9", "name\"q", ""}}
 }
 
 func (g *Gen) pick(a []string) string { return a[g.R.Intn(len(a))] }
